@@ -70,9 +70,23 @@ func (c *CEnv) evalBool(e *CE) *Term {
 	return v.X
 }
 
+// specIntMath: in mode int a spec-level "int" (spec/lemma/ghost parameters, typed quantifiers) is a
+// mathematical integer, not Go's 64-bit int. Set per VC by newVC.
+var specIntMath bool
+
+func goBasicByName(name string) (types.Type, bool) {
+	if name == "int" {
+		return types.Typ[types.Int], true
+	}
+	return basicByName(name)
+}
+
 func basicByName(name string) (types.Type, bool) {
 	switch name {
 	case "int":
+		if specIntMath {
+			return nil, false
+		}
 		return types.Typ[types.Int], true
 	case "int8":
 		return types.Typ[types.Int8], true
@@ -100,7 +114,7 @@ func basicByName(name string) (types.Type, bool) {
 
 // specSort: SMT sort of a spec-level type name
 func (m Mode) specSort(name string) string {
-	if t, ok := basicByName(name); ok {
+	if t, ok := goBasicByName(name); ok {
 		return m.leafSort(t)
 	}
 	switch name {
@@ -277,6 +291,13 @@ func (c *CEnv) ident(e *CE, hint *Value) Value {
 	if c.pkg != nil {
 		if v, ok := c.pkgConst(c.pkg.Types, name, hint); ok {
 			return v
+		}
+		// package-level variable: its current value in the heap
+		if c.pkg.SSA != nil && !c.specMode {
+			if g := c.pkg.SSA.Var(name); g != nil {
+				p := c.x.get(c.fr, c.heap(), g)
+				return c.x.loadLoc(c.heap(), p.Loc)
+			}
 		}
 	}
 	c.fail("unknown identifier %q", name)
@@ -739,7 +760,7 @@ func (c *CEnv) closeQuant(kind string, vars [][2]string, guards, side []*Term, b
 func (c *CEnv) callExpr(e *CE, hint *Value) Value {
 	m := c.mode
 	name := e.Name
-	if t, ok := basicByName(name); ok && len(e.Args) == 1 && name != "bool" {
+	if t, ok := goBasicByName(name); ok && len(e.Args) == 1 && name != "bool" {
 		// conversion with Go semantics
 		a := c.evalH(e.Args[0], hint)
 		to, _ := intTyOf(t)
@@ -780,6 +801,31 @@ func (c *CEnv) callExpr(e *CE, hint *Value) Value {
 	case "mathint":
 		// the mathematical value of a typed integer (mode int only)
 		return c.mathInt(c.eval(e.Args[0]).X)
+	case "big":
+		// mathematical value of a *big.Int
+		a := c.eval(e.Args[0])
+		if a.K != KPtr {
+			c.fail("big() of non-pointer")
+		}
+		return c.mathInt(Select(c.x.bigHeap(c.heap()), a.Loc.Root))
+	case "pow2":
+		a := c.evalH(e.Args[0], nil)
+		return c.mathInt(c.x.pow2Term(a.X))
+	case "bytelen":
+		a := c.evalH(e.Args[0], nil)
+		c.x.vc.needByteLen()
+		return c.mathInt(App("bytelen", SInt, a.X))
+	case "abs":
+		a := c.evalH(e.Args[0], nil)
+		return c.mathInt(iAbs(a.X))
+	case "ediv", "emod":
+		// Euclidean division / remainder (SMT-LIB div, mod): floor division for positive divisors
+		a := c.evalH(e.Args[0], nil)
+		b := c.evalH(e.Args[1], &a)
+		if name == "ediv" {
+			return c.mathInt(iDivE(a.X, b.X))
+		}
+		return c.mathInt(iModE(a.X, b.X))
 	case "min", "max":
 		a := c.evalH(e.Args[0], hint)
 		b := c.evalH(e.Args[1], &a)
@@ -939,7 +985,12 @@ func (vc *VC) useSpec(c *CEnv, sf *SpecFn) {
 		}
 		panic(engineErr{fmt.Sprintf("spec %s: body has sort %s, declared %s", sf.Name, got, rs)})
 	}
-	raw := fmt.Sprintf("(define-fun-rec %s (%s) %s %s)", quoteSym(sf.Name), strings.Join(ps, " "), rs, body.X.String())
+	var pnames, psorts []string
+	for _, p := range sf.Params {
+		pnames = append(pnames, quoteSym(p.Name))
+		psorts = append(psorts, m.specSort(p.Type))
+	}
+	raw := specDefinition(quoteSym(sf.Name), pnames, psorts, rs, body.X)
 	// dependencies discovered during evaluation were appended after idx; move this definition after them
 	deps := append([]Item{}, vc.items[idx+1:]...)
 	vc.items = append(vc.items[:idx], deps...)
